@@ -60,6 +60,10 @@ def rule_ab(ctx):
     check_pairwise(ctx, "C16.ab", W, R, legacy_read_only={
         ("RemoteRef.state", "Bookmark.remote_bookmarks"): "jj < 0.34 stored remote bookmarks inside Bookmark",
         ("RemoteRef.target", "Bookmark.remote_bookmarks"): "jj < 0.34 stored remote bookmarks inside Bookmark",
+        ("RemoteView.bookmarks", "Bookmark.name"): "legacy per-bookmark grouping of remote bookmarks (jj < 0.34)",
+        ("RemoteView.bookmarks", "Bookmark.remote_bookmarks"): "legacy per-bookmark grouping (jj < 0.34)",
+        ("RemoteView.bookmarks", "RemoteBookmark.state"): "legacy per-bookmark grouping (jj < 0.34)",
+        ("RemoteView.bookmarks", "RemoteBookmark.target"): "legacy per-bookmark grouping (jj < 0.34)",
         ("RemoteView.tags", "View.git_refs"): "one-time migration of refs/tags/* to remote tags (flag-guarded)",
         ("View.git_heads", "View.git_head_legacy"): "pre-RefTarget git head",
         ("View.wc_commit_ids", "View.wc_commit_id"): "single-workspace repos",
